@@ -128,8 +128,22 @@ def ref_return_none(tree):
     return ast.fix_missing_locations(tree)
 
 
+def _binds_name(tree, name):
+    """Some scope of the module binds `name` (the interpreter's symbol tables)."""
+    import symtable
+
+    def rec(t):
+        for s_ in t.get_symbols():
+            if s_.get_name() == name and (s_.is_assigned() or s_.is_imported() or s_.is_parameter()):
+                return True
+        return any(rec(c) for c in t.get_children())
+    return rec(symtable.symtable(ast.unparse(tree), 'probe', 'exec'))
+
+
 def ref_object(tree):
     tree = copy.deepcopy(tree)
+    if _binds_name(tree, 'object'):
+        return tree       # valid only where `object` is the builtin: a module that binds the name itself may mean another class by it
     for n in ast.walk(tree):
         if isinstance(n, ast.ClassDef):
             n.bases = [b for b in n.bases if not (isinstance(b, ast.Name) and b.id == 'object')]
@@ -139,7 +153,9 @@ def ref_object(tree):
 def ref_posargs(tree):
     tree = copy.deepcopy(tree)
     for n in ast.walk(tree):
-        if isinstance(n, ast.arguments) and n.posonlyargs:
+        # valid only where no caller can tell the difference: with a **kwargs parameter `f(1, a=2)` is a legal call of `def f(a, /, **kw)` (a=2 lands in
+        # kw) and a TypeError once the marker is gone - there the marker stays
+        if isinstance(n, ast.arguments) and n.posonlyargs and n.kwarg is None:
             n.args = n.posonlyargs + n.args
             n.posonlyargs = []
     return tree
@@ -301,6 +317,10 @@ def s(a):
     qual = 'remove_object_base'
     obj_src = 'class A(object): pass\nclass B(object, Foo, builtins.object, metaclass=object): pass\n@object\nclass C(Foo, object):\n    class D(object):\n        x = object\n    def m(self, o=object): return object\nclass E: pass\nclass F(): pass\nclass G(Foo, *object, **object): pass\n'
     check(rep, model, 'C05.OBJ', qual, 'object as a base, next to other bases, as keyword value, decorator, default, starred; nested classes', obj_src, ref_object(ast.parse(obj_src)))
+    for label_, shadow in (('assigned at module level', 'class Base: pass\nobject = Base\n'), ('imported', 'from legacy import base as object\n'), ('a class of that name', 'class object: pass\n'),
+                           ('a parameter of the enclosing function', 'def make(object):\n    class Inner(object): pass\n    return Inner\n'), ('assigned in another function (global)', 'def patch():\n    global object\n    object = dict\n')):
+        src_ = shadow + 'class A(object): pass\nclass B(A, object): pass\nprint(A.__mro__)\n'
+        check(rep, model, 'C05.OBJ', qual, 'a module that binds the name object itself: ' + label_, src_, ref_object(ast.parse(src_)))
     rep.floor('C05.OBJ', 1)
 
     # ---- imports
@@ -314,7 +334,8 @@ def s(a):
     rep.floor('C05.IMP', 11)
 
     # ---- positional-only markers
-    pos_src = 'def f(a, b, /, c=1, *d, e, **g): pass\ndef h(a, /): pass\ndef i(a=1, /, b=2): pass\nasync def j(a, /, *, k): pass\nl = lambda a, /, b: a\ndef m(a, b): pass\nclass K:\n    def n(self, x, /, y): pass\n'
+    pos_src = 'def f(a, b, /, c=1, *d, e, **g): pass\ndef h(a, /): pass\ndef i(a=1, /, b=2): pass\nasync def j(a, /, *, k): pass\nl = lambda a, /, b: a\ndef m(a, b): pass\nclass K:\n    def n(self, x, /, y): pass\n    def o(self, key, /, **attributes): return key, attributes\n' \
+              'def p(a, /, **kw): return a, kw\nq = lambda a, /, *r, **kw: (a, kw)\nasync def s(a, /, b, *, c, **kw): return kw\nprint(p(1, a=2), q(1, a=2))\n'
     check(rep, model, 'C05.POS', 'convert_posargs_to_args', 'positional-only markers in functions, async functions, lambdas, methods; defaults', pos_src, ref_posargs(ast.parse(pos_src)))
     rep.floor('C05.POS', 1)
 
